@@ -343,7 +343,10 @@ class Ctx:
 
     def add_failure(self, f):
         sigf = getattr(self.mod, "signature", None)
-        sig = sigf(f) if sigf else default_signature(f)
+        try:
+            sig = sigf(f) if sigf else default_signature(f)
+        except Exception as e:  # a signature function must never turn a finding into a crash of the runner
+            sig = default_signature(f) + " (signature function failed: %s)" % type(e).__name__
         self.failures.append((sig, f))
 
     # ------------------------------------------------------------------ recording + trace validation
